@@ -5,14 +5,44 @@ ID = "C43"
 COMPONENTS = ["s_xdsauth"]
 T4 = []
 PROOF_MODULES = ["GrpcProofs.Properties.C43"]
-THEOREMS = ["GrpcProofs.C43." + t for t in ()]
+THEOREMS = ["GrpcProofs.C43." + t for t in (
+    "changed_only_with_accepted", "no_duplicate_changed_unless_nack_intervened",
+    "ambient_iff_cached_and_rejected_or_stream_failed", "resource_error_iff_no_valid", "error_kind_matches_cache",
+    "rejected_duplicate_already_reported", "new_watcher_gets_cache_and_error_state", "last_unwatch_unsubscribes",
+    "unsubscribed_when_no_watchers")]
 DESIGN_REF = "DESIGN.md section 8, C43"
-TECHNIQUE = "TODO"
-LEVEL_TEXT = "TODO"
-LEVEL_NOTE = "TODO"
-GAP = "TODO"
-ASSUMPTIONS = []
-RULE = "TODO"
+TECHNIQUE = ("Lean 4 theorems about a statement-by-statement port of the authority's serializer callbacks (authority.go), for all "
+             "states / all event histories (induction over histories with a per-watcher ghost record and state invariants); T2 "
+             "correspondence: the real xdsclient.XDSClient (authority, xdsChannel, adsStreamImpl, both serializers) under "
+             "testing/synctest over a scripted, harness-paced transport, callback logs and the authority's resource table diffed "
+             "against the model after every event")
+LEVEL_TEXT = ("Machine-checked proof, over every history of watch/unwatch calls, responses of any server (valid, invalid, missing "
+              "resources, any versions), watch-expiry events and stream failures, that in the model of the authority: ResourceChanged "
+              "carries only content the decoder accepted for the watched resource and equals the cache afterwards; no watcher gets "
+              "ResourceChanged for the content it holds unless a NACK was reported to it in between; AmbientError / ResourceError "
+              "are delivered exactly in the situations the statement lists (iff characterisations incl. ignore_resource_deletion, "
+              "expiry, rejected-without-cache) and match the presence of a cached value; a new watcher gets exactly cache + error "
+              "state; and the set of subscriptions held on the channels always equals the channel sets of resources that still have "
+              "watchers. The model is replayed against the real client on every run (callback logs, authority state, per-server "
+              "subscriptions, ADS watch states) and the same executable predicates run as a monitor on the implementation's output.")
+LEVEL_NOTE = ("Reading (DESIGN section 7): a rejection whose error string equals the recorded one is not re-delivered; theorem "
+              "rejected_duplicate_already_reported shows every watcher was already told exactly that error. 'watch' events are assumed "
+              "to bring a fresh watcher (WatchResource wraps each call's watcher; the harness enforces it). Trusted: Lean kernel; "
+              "synctest quiescence; the scripted transport/decoder of the harness (pacing: one transport call granted at a time, lowest "
+              "server first); protobuf (un)marshalling. Layer B of the model (channels, timers, pump) is tied by the correspondence only, "
+              "the theorems are about layer A (the authority) for arbitrary event sequences, a superset of what layer B produces. "
+              "Observation (not a listed clause, reproduced on the real code by the generator): a resource first watched while a fallback "
+              "server is active is subscribed only there; on revert to the primary it is unsubscribed and never subscribed on the primary "
+              "(res entry with ch=-).")
+GAP = ("order of callbacks of different watchers inside one quiescence step (compared per watcher); real gRPC transport; wall-clock; "
+       "multi-authority channel sharing")
+ASSUMPTIONS = ["every watch registers a watcher object that is not currently registered", "decoder errors are compared by their string",
+               "the backoff function is the constant 1 s and the watch expiry 2505 ms passed by the harness"]
+RULE = ("random histories (6-70 events) for 1-3 servers with random ignore_resource_deletion bits: watch/unwatch of 3 names over 2 types "
+        "(one with AllResourcesRequiredInSotW) + an unknown type, responses from any server with valid / invalid / nameless resources and "
+        "fresh or repeated versions, stream breaks, servers going down/up, sleeps around the 1 s backoff and the 2505 ms watch expiry, "
+        "hold/release of the authority's serializer (events queue up and are processed in order), close. Non-trivial: at least 3 ops "
+        "with watcher callbacks; distinct = distinct op list")
 
 NAMES = ["r1", "r2", "r3"]
 CONTENTS = ["c1", "c2", "c3"]
@@ -44,6 +74,11 @@ def gen_ops(rng, ln, n, allow_hold=True, weights=None):
     for s in range(n):
         if rng.random() < 0.25:
             ops.append("down %d" % s)
+    if rng.random() < 0.7:
+        for _ in range(rng.randrange(1, 4)):
+            ops.append("watch %s %s %d" % ("T" if rng.random() < 0.8 else "U", rng.choice(NAMES), nextw))
+            active.append(nextw)
+            nextw += 1
     for _ in range(ln):
         r = rng.random()
         if r < 0.20:
